@@ -273,6 +273,161 @@ fn invalid_reason(s: &Spec, nref: usize) -> Option<&'static str> {
     None
 }
 
+// ---- every accessor of the alignment::Record trait, evaluated on any record type
+
+#[derive(Debug, PartialEq, Clone)]
+struct View {
+    spec: Spec,
+    cigar_len: usize,
+    cigar_empty: bool,
+    seq_len: usize,
+    seq_empty: bool,
+    seq_get: Vec<Option<u8>>,
+    qual_len: usize,
+    qual_empty: bool,
+    data_count: usize,
+    data_empty: bool,
+    data_get: Vec<Option<Val>>,
+    span: Option<usize>,
+    end: Option<usize>,
+}
+
+fn io_s<T>(what: &str, r: io::Result<T>) -> Result<T, String> {
+    r.map_err(|e| format!("{what}: {e}"))
+}
+
+fn view_of(h: &sam::Header, r: &dyn sam::alignment::Record) -> Result<View, String> {
+    let mut s = Spec::default();
+    s.name = r.name().map(|n| n.to_vec());
+    s.flags = u16::from(io_s("flags", r.flags())?);
+    s.rid = io_s("reference_sequence_id", r.reference_sequence_id(h).transpose())?;
+    s.pos = io_s("alignment_start", r.alignment_start().transpose())?.map(usize::from).unwrap_or(0);
+    s.mapq = io_s("mapping_quality", r.mapping_quality().transpose())?.map(|m| m.get()).unwrap_or(255);
+    let cigar = r.cigar();
+    for op in cigar.iter() {
+        let op = io_s("cigar.iter", op)?;
+        s.cigar.push((code_of(op.kind()), op.len()));
+    }
+    s.mrid = io_s("mate_reference_sequence_id", r.mate_reference_sequence_id(h).transpose())?;
+    s.mpos = io_s("mate_alignment_start", r.mate_alignment_start().transpose())?.map(usize::from).unwrap_or(0);
+    s.tlen = io_s("template_length", r.template_length())?;
+    let seq = r.sequence();
+    s.seq = seq.iter().collect();
+    let qual = r.quality_scores();
+    for q in qual.iter() {
+        s.qual.push(io_s("quality_scores.iter", q)?);
+    }
+    let data = r.data();
+    let mut data_get = Vec::new();
+    for f in data.iter() {
+        let (t, v) = io_s("data.iter", f)?;
+        let vb: Value = io_s("data value", v.try_into())?;
+        let b: &[u8; 2] = t.as_ref();
+        s.data.push((*b, val_from_noodles(&vb)));
+    }
+    for (t, _) in &s.data {
+        let tag = Tag::new(t[0], t[1]);
+        match data.get(&tag) {
+            None => data_get.push(None),
+            Some(v) => {
+                let vb: Value = io_s("data.get value", io_s("data.get", v)?.try_into())?;
+                data_get.push(Some(val_from_noodles(&vb)));
+            }
+        }
+    }
+    let n = seq.len();
+    let idx = [0usize, 1, n / 2, n.wrapping_sub(1), n, n + 1];
+    Ok(View {
+        cigar_len: cigar.len(),
+        cigar_empty: cigar.is_empty(),
+        seq_len: seq.len(),
+        seq_empty: seq.is_empty(),
+        seq_get: idx.iter().map(|i| seq.get(*i)).collect(),
+        qual_len: qual.len(),
+        qual_empty: qual.is_empty(),
+        data_count: s.data.len(),
+        data_empty: data.is_empty(),
+        data_get,
+        span: io_s("alignment_span", r.alignment_span().transpose())?,
+        end: io_s("alignment_end", r.alignment_end().transpose())?.map(usize::from),
+        spec: s,
+    })
+}
+
+fn canon_view(v: &View) -> View {
+    let mut c = v.clone();
+    c.spec = canon_sam(&v.spec);
+    c.data_get = v.data_get.iter().map(|o| o.as_ref().map(by_value)).collect();
+    c
+}
+
+/// compare every accessor of a lazily read record with its eager twin (the same trait evaluated
+/// on the RecordBuf parsed from the same bytes); integer tags by value
+fn cmp_views(prefix: &str, h: &sam::Header, lazy: &dyn sam::alignment::Record, eager: &RecordBuf) -> V {
+    let ve = match guarded(std::panic::AssertUnwindSafe(|| view_of(h, eager))) {
+        Outcome::Done(Ok(v)) => canon_view(&v),
+        Outcome::Done(Err(e)) => return bad(&format!("{prefix}-eager-accessor-error"), e),
+        Outcome::Panicked(m) => return bad(&format!("panic-{prefix}-eager-accessor"), m),
+    };
+    let vl = match guarded(std::panic::AssertUnwindSafe(|| view_of(h, lazy))) {
+        Outcome::Done(Ok(v)) => canon_view(&v),
+        Outcome::Done(Err(e)) => return bad(&format!("{prefix}-accessor-error"), format!("{e} : {}", dump_spec(&ve.spec))),
+        Outcome::Panicked(m) => return bad(&format!("panic-{prefix}-accessor"), m),
+    };
+    let d = |f: &str, a: String, b: String| bad(&format!("{prefix}-accessor-{f}"), format!("lazy {a} eager {b} : {}", dump_spec(&ve.spec)));
+    if let Some(f) = first_diff(&ve.spec, &vl.spec) {
+        return d(&f, dump_spec(&vl.spec), dump_spec(&ve.spec));
+    }
+    if vl.cigar_len != ve.cigar_len || vl.cigar_len != vl.spec.cigar.len() {
+        return d("cigar-len", format!("{} (iter yields {})", vl.cigar_len, vl.spec.cigar.len()), ve.cigar_len.to_string());
+    }
+    if vl.cigar_empty != ve.cigar_empty {
+        return d("cigar-is-empty", vl.cigar_empty.to_string(), ve.cigar_empty.to_string());
+    }
+    if vl.seq_len != ve.seq_len || vl.seq_len != vl.spec.seq.len() {
+        return d("sequence-len", vl.seq_len.to_string(), ve.seq_len.to_string());
+    }
+    if vl.seq_empty != ve.seq_empty {
+        return d("sequence-is-empty", vl.seq_empty.to_string(), ve.seq_empty.to_string());
+    }
+    if vl.seq_get != ve.seq_get {
+        return d("sequence-get", format!("{:?}", vl.seq_get), format!("{:?}", ve.seq_get));
+    }
+    if vl.qual_len != ve.qual_len || vl.qual_len != vl.spec.qual.len() {
+        return d("quality-scores-len", vl.qual_len.to_string(), ve.qual_len.to_string());
+    }
+    if vl.qual_empty != ve.qual_empty {
+        return d("quality-scores-is-empty", vl.qual_empty.to_string(), ve.qual_empty.to_string());
+    }
+    if vl.data_count != ve.data_count {
+        return d("data-count", vl.data_count.to_string(), ve.data_count.to_string());
+    }
+    if vl.data_empty != ve.data_empty {
+        return d("data-is-empty", vl.data_empty.to_string(), ve.data_empty.to_string());
+    }
+    if vl.data_get != ve.data_get {
+        return d("data-get", format!("{:?}", vl.data_get), format!("{:?}", ve.data_get));
+    }
+    if vl.span != ve.span {
+        return d("alignment-span", format!("{:?}", vl.span), format!("{:?}", ve.span));
+    }
+    if vl.end != ve.end {
+        return d("alignment-end", format!("{:?}", vl.end), format!("{:?}", ve.end));
+    }
+    Ok(())
+}
+
+fn bam_read_lazy(bytes: &[u8]) -> io::Result<(sam::Header, Vec<bam::Record>)> {
+    let mut rd = bam::io::Reader::from(bytes);
+    let h = rd.read_header()?;
+    let mut out = Vec::new();
+    let mut rec = bam::Record::default();
+    while rd.read_record(&mut rec)? != 0 {
+        out.push(rec.clone());
+    }
+    Ok((h, out))
+}
+
 // ---- rt: the record property
 
 fn run_rt(c: &Case) -> Obs {
@@ -349,6 +504,10 @@ fn check_rt(header: &sam::Header, specs: &[Spec]) -> V {
     }
     let mut lazy_skip: Vec<usize> = Vec::new();
     for (i, (e, lz)) in kept.iter().zip(lazies.iter()).enumerate() {
+        // (NV_C06_SKIP_ACCESSORS: development aid to exercise the conversion paths alone)
+        if !(empty_array_not_last(e) && lz.data().iter().any(|f| f.is_err())) && std::env::var("NV_C06_SKIP_ACCESSORS").is_err() {
+            cmp_views("sam-lazy", &h3, lz, &recs[i])?;
+        }
         let conv = match io_g("sam-lazy-convert", std::panic::AssertUnwindSafe(|| RecordBuf::try_from_alignment_record(&h3, lz)))? {
             Ok(r) => r,
             Err(err) => {
@@ -504,6 +663,72 @@ fn check_rt(header: &sam::Header, specs: &[Spec]) -> V {
             }
             if let Some(f) = first_diff(&canon_sam(&from_record_buf(a)), &canon_sam(&from_record_buf(b))) {
                 return bad(&format!("bam-sam-bam-{f}"), format!("{} vs {}", dump_spec(&from_record_buf(a)), dump_spec(&from_record_buf(b))));
+            }
+        }
+    }
+    // 7. lazy sam::Record -> bam::io::Writer -> read back (eager and lazy) -> compare with the eager
+    //    SAM parse; and the reverse: lazy bam::Record -> sam::io::Writer -> parse
+    {
+        let sel: Vec<usize> = both
+            .iter()
+            .copied()
+            .filter(|i| !skip.contains(i) && !lazy_skip.contains(i) && !has_nonfinite_array(&kept[*i]))
+            .collect();
+        let mut bb = match io_g("lazy-s2b-header", || bam_write_all(&h3, &[]))? {
+            Ok(b) => b,
+            Err(e) => return bad("sam-lazy-to-bam-header-rejected", e.to_string()),
+        };
+        for &i in &sel {
+            let mut w = bam::io::Writer::from(Vec::new());
+            match io_g("lazy-s2b-write", std::panic::AssertUnwindSafe(|| w.write_alignment_record(&h3, &lazies[i])))? {
+                Ok(()) => bb.extend_from_slice(w.get_ref()),
+                Err(e) => return bad("sam-lazy-to-bam-rejected", format!("{e} : {}", dump_spec(&got[i]))),
+            }
+        }
+        let cigar_cls = |i: usize| if kept[i].cigar.iter().any(|(k, _)| *k == 7) { "-cigar-with-eq" } else { "" };
+        let (hbz, eb) = match io_g("lazy-s2b-read", || bam_read_all(&bb))? {
+            Ok(x) => x,
+            Err(e) => {
+                let c = sel.iter().map(|i| cigar_cls(*i)).find(|c| !c.is_empty()).unwrap_or("");
+                return bad(&format!("sam-lazy-to-bam-unreadable{c}"), format!("{e} : first record {}", sel.first().map(|i| dump_spec(&got[*i])).unwrap_or_default()));
+            }
+        };
+        if eb.len() != sel.len() {
+            return bad("sam-lazy-to-bam-record-count", format!("{} vs {}", sel.len(), eb.len()));
+        }
+        for (k, &i) in sel.iter().enumerate() {
+            if let Some(f) = first_diff(&canon_bam(&got[i]), &canon_bam(&from_record_buf(&eb[k]))) {
+                return bad(&format!("sam-lazy-to-bam-{f}{}", cigar_cls(i)), format!("sam {} bam {}", dump_spec(&got[i]), dump_spec(&from_record_buf(&eb[k]))));
+            }
+        }
+        let (_, lb) = match io_g("lazy-s2b-read-lazy", || bam_read_lazy(&bb))? {
+            Ok(x) => x,
+            Err(e) => return bad("sam-lazy-to-bam-unreadable-lazily", e.to_string()),
+        };
+        if lb.len() != sel.len() {
+            return bad("sam-lazy-to-bam-lazy-record-count", format!("{} vs {}", sel.len(), lb.len()));
+        }
+        // lazy bam::Record -> sam writer -> parse
+        let mut t = match io_g("lazy-b2s-header", || sam_write_header(&hbz))? {
+            Ok(t) => t,
+            Err(e) => return bad("bam-lazy-to-sam-header-rejected", e.to_string()),
+        };
+        for (k, r) in lb.iter().enumerate() {
+            match io_g("lazy-b2s-write", std::panic::AssertUnwindSafe(|| sam_write_record(&hbz, r)))? {
+                Ok(x) => t.extend_from_slice(&x),
+                Err(e) => return bad("bam-lazy-to-sam-rejected", format!("{e} : {}", dump_spec(&got[sel[k]]))),
+            }
+        }
+        let (_, back) = match io_g("lazy-b2s-read", || sam_read_all(&t))? {
+            Ok(x) => x,
+            Err(e) => return bad("bam-lazy-to-sam-unreadable", e.to_string()),
+        };
+        if back.len() != sel.len() {
+            return bad("bam-lazy-to-sam-record-count", format!("{} vs {}", sel.len(), back.len()));
+        }
+        for (k, &i) in sel.iter().enumerate() {
+            if let Some(f) = first_diff(&canon_bam(&got[i]), &canon_bam(&from_record_buf(&back[k]))) {
+                return bad(&format!("bam-lazy-to-sam-{f}"), format!("sam {} via bam {}", dump_spec(&got[i]), dump_spec(&from_record_buf(&back[k]))));
             }
         }
     }
@@ -744,6 +969,10 @@ fn run_lz(c: &Case) -> Obs {
         Outcome::Done(Err(e)) => return Obs::fail("-", cls, format!("read_record: {e}")),
         Outcome::Panicked(m) => return Obs::fail("-", "panic-sam-read-lazy", m),
     };
+    if let Err((t, d)) = cmp_views("sam-lazy", &header, &lazy, &eager) {
+        let t = if empty_array_not_last(&espec) && t.ends_with("accessor-error") { cls.to_string() } else { t };
+        return Obs::fail("-", &t, d);
+    }
     match guarded(std::panic::AssertUnwindSafe(|| RecordBuf::try_from_alignment_record(&header, &lazy))) {
         Outcome::Done(Ok(conv)) => {
             if let Some(f) = first_diff(&canon_sam(&espec), &canon_sam(&from_record_buf(&conv))) {
@@ -889,8 +1118,11 @@ fn run(c: &Case) -> Obs {
         "fsw" => run_fsw(c),
         "wr" => run_wr(c),
         "pr" => run_pr(c),
+        "bwh" => run_bwh(c),
+        "bph" => run_bph(c),
         _ => Obs { obs: "-".into(), verdict: "skip".into(), nontrivial: false },
     }
 }
 
+include!("c06_part4.rs");
 include!("c06_part3.rs");
